@@ -102,7 +102,7 @@ Qed.
 Lemma evolves_run_setup su t w w' : run_setup su t w = Some w' -> evolves w w'.
 Proof.
   intros E. destruct su; cbn [run_setup] in E.
-  - inversion E; subst; apply evolves_refl.
+  - inversion E; subst. rv.
   - destruct (trk_start true k t (tr_se w)); inversion E; subst. rv.
   - destruct (trk_start true k t (tr_er w)); inversion E; subst. rv.
   - destruct (trk_start false k t (tr_de w)); inversion E; subst. rv.
@@ -333,7 +333,7 @@ Qed.
 Lemma sa_run_setup su t w w' : storage_alive w -> run_setup su t w = Some w' -> storage_alive w'.
 Proof.
   intros H E. destruct su; cbn [run_setup] in E.
-  - inversion E; subst; exact H.
+  - inversion E; subst. sv H.
   - destruct (trk_start true k t (tr_se w)); inversion E; subst. sv H.
   - destruct (trk_start true k t (tr_er w)); inversion E; subst. sv H.
   - destruct (trk_start false k t (tr_de w)); inversion E; subst. sv H.
@@ -843,6 +843,7 @@ Proof.
     destruct HP as (HI & Hincl & Hh & Hc). change (default_post A B w w').
     assert (Hpre : default_pre A B w) by exact (conj HI (conj Hincl (conj Hh Hc))).
     cbn zeta in E. set (sd := sys_or_default P t) in *.
+    destruct (negb (fresh_claim_b t w)); [discriminate E|].
     assert (Hev0 : evolves w (body_begin P sd t runno captured w)) by (apply evolves_rview; apply rview_body_begin).
     assert (Hb : default_pre A B (body_begin P sd t runno captured w)).
     { apply (PreR_step A B w); [eapply (c_body _ _ (sa_closed P)); exact (ic_alive _ _ HI)|exact Hev0|exact Hpre]. }
